@@ -104,7 +104,8 @@ Inductive sstmt :=
 | SAssignDict (f : string) (items : list (string * expr)) (* self._f = dict(a=e1, b=e2) *)
 | SLet (x : string) (e : expr)                            (* x = e *)
 | SRoster (e : expr) (ptype : N)                          (* self._players.create_or_update_players(pickle.loads(e, ...), ptype) *)
-| SMapStrip (e : expr).                                   (* self._map = e.lstrip('spaces/') *)
+| SMapStrip (e : expr)                                    (* self._map = e.lstrip('spaces/') *)
+| SMapPrefix (e : expr).                                  (* self._map = e[len('spaces/'):] if e.startswith('spaces/') else e *)
 Inductive stmt :=
 | Simple (s : sstmt)
 | SFor (x : string) (e : expr) (body : list sstmt).       (* for x in e: body *)
@@ -333,6 +334,12 @@ Definition exec_s (ctl : controller) (c : ctx) (s : sstmt) : list (string * pyva
   | SMapStrip e =>
       match eval c e with
       | Ok (PStr b) => (loc, set_field st "_map" (PStr (lstrip_set spaces_set b)), None)
+      | Ok _ => (loc, st, Some EOther)
+      | Err er => (loc, st, Some er)
+      end
+  | SMapPrefix e =>
+      match eval c e with
+      | Ok (PStr b) => (loc, set_field st "_map" (PStr (remove_prefix spaces_set b)), None)
       | Ok _ => (loc, st, Some EOther)
       | Err er => (loc, st, Some er)
       end
